@@ -77,6 +77,8 @@ pub enum Step {
     /// `n` one-byte STREAM frames at descending offsets below the stream limit
     Drip { st: StSel, n: u16 },
     Dgram { delta: i16, with_len: bool },
+    /// a small DATAGRAM frame (fills the receive buffer with many entries)
+    DgramSmall { len: u8 },
     Crypto { delta: i8, len: u16 },
     Read { st: StSel, max: u32 },
     Stop { st: StSel },
@@ -718,6 +720,27 @@ impl<'a> Run<'a> {
                 self.labels.push("datagram-frame");
                 Ok(closed)
             }
+            Step::DgramSmall { len } => {
+                let limit = self.pw.p.peer_tp.as_ref().and_then(|t| t.int(0x20));
+                let payload = (*len as usize).max(1);
+                let frame_size = 2 + payload;
+                self.m.dgram_seq += 1;
+                let mut data = vec![0u8; payload];
+                fill_content(KEY ^ 0xd9, self.m.dgram_seq, true, 0, &mut data);
+                let ex = match limit {
+                    None => Expect::Close(vec![PROTOCOL_VIOLATION]),
+                    Some(l) if frame_size as u64 <= l => Expect::Accept,
+                    Some(l) if payload as u64 > l => Expect::Close(vec![PROTOCOL_VIOLATION]),
+                    Some(_) => Expect::Either(vec![PROTOCOL_VIOLATION]),
+                };
+                if ex != Expect::Close(vec![PROTOCOL_VIOLATION]) {
+                    self.m.dgrams_legal.push(data.clone());
+                }
+                self.send_frames(&[Frame::Datagram { data, has_len: true }]);
+                let closed = self.settle(&what, ex)?;
+                self.labels.push("small-datagram-frame");
+                Ok(closed)
+            }
             Step::Crypto { delta, len } => {
                 // out-of-order CRYPTO data in the application space, always behind a gap at offset 0
                 let buf = self.c.crypto_buf as i64;
@@ -1181,6 +1204,7 @@ fn arb_step() -> impl Strategy<Value = Step> {
         4 => (arb_stsel(), fin).prop_map(|(st, fin)| Step::Reset { st, fin }),
         2 => (arb_stsel(), 1u16..400).prop_map(|(st, n)| Step::Drip { st, n }),
         5 => (prop_oneof![4 => -3i16..=0, 1 => 1i16..=3], any::<bool>()).prop_map(|(delta, with_len)| Step::Dgram { delta, with_len }),
+        4 => (1u8..60).prop_map(|len| Step::DgramSmall { len }),
         2 => (arb_delta(), 1u16..600).prop_map(|(delta, len)| Step::Crypto { delta, len }),
         14 => (arb_stsel(), prop_oneof![1u32..100, 100u32..100_000]).prop_map(|(st, max)| Step::Read { st, max }),
         3 => arb_stsel().prop_map(|st| Step::Stop { st }),
